@@ -20,6 +20,10 @@ pub struct StepPt {
     /// start time (default 0.2)
     #[serde(default)]
     pub t0: Option<f64>,
+    /// minimum step as a fraction of the maximum (default: 1e-9 absolute): with a large minimum step the controller's
+    /// end-of-interval special cases (remainder shorter than the minimum, clipped steps) are reached
+    #[serde(default)]
+    pub dtmin_frac: Option<f64>,
 }
 pub fn rhs_of(name: &str) -> (Rc<dyn Fn(f64, &[f64]) -> Vec<f64>>, Vec<f64>) {
     if let Some(d) = name.strip_prefix("generic") {
@@ -55,7 +59,7 @@ fn unflatten(y: &[f64]) -> Vec<C64> {
 }
 pub fn run_and_judge(o: &mut Outcome, p: &StepPt, budget: u64) -> Option<refstep::Judged> {
     let t0 = p.t0.unwrap_or(0.2);
-    let cfg = Cfg { tol: p.tol, dtmin: 1e-9, dtmax: p.dtmax, t0, t1: t0 + p.len };
+    let cfg = Cfg { tol: p.tol, dtmin: p.dtmin_frac.map_or(1e-9, |q| q * p.dtmax), dtmax: p.dtmax, t0, t1: t0 + p.len };
     let log = Rc::new(std::cell::RefCell::new(refstep::CallLog::default()));
     let l2 = log.clone();
     let adams = matches!(p.solver, Solver::Adams5 | Solver::Adams3);
@@ -141,7 +145,7 @@ impl Check for Steps {
         "7 solvers x {3 generic non-linear non-autonomous right-hand sides (dimension 1,2,3), 2 catalogue systems, 2 complex 2-component systems (one with components a quarter turn apart) solved in Complex<f64> and judged as its real twin} x tolerance x maximum step x interval length (one shorter than a start-up, one long), static and dynamic dimension; every consecutive pair of every path is one judged transition of the reference stepper (nondeterministic for Adams: hypothesis set over the hidden derivative history); signature = run-length-compressed class sequence (R embedded RK, S RK4 start-up, A Adams, B BDF, a ambiguous, E Euler)".into()
     }
     fn axes(&self, t: Tier) -> Value {
-        json!({"rhs": RHS, "tol": t.pick(vec![1e-3, 1e-6], vec![1e-3, 1e-5, 1e-7, 1e-9]), "dtmax": [0.2, 0.05], "len": t.pick(vec![0.33, 2.7], vec![0.33, 2.7, 9.1]), "t0": t.pick(vec![0.2], vec![0.2, -3.1, 40.0]), "dtmin": 1e-9})
+        json!({"rhs": RHS, "tol": t.pick(vec![1e-3, 1e-6], vec![1e-3, 1e-5, 1e-7, 1e-9]), "dtmax": [0.2, 0.05], "len": t.pick(vec![0.33, 2.7], vec![0.33, 2.7, 9.1]), "t0": t.pick(vec![0.2], vec![0.2, -3.1, 40.0]), "dtmin": "1e-9; and dtmax x {0.5, 0.25} with a sweep of interval lengths across one maximum step"})
     }
     fn points(&self, t: Tier) -> Vec<StepPt> {
         let mut v = vec![];
@@ -161,8 +165,23 @@ impl Check for Steps {
                                     if t0.is_some() && (dynamic || !rhs.starts_with("generic")) {
                                         continue;
                                     }
-                                    v.push(StepPt { solver, rhs: rhs.to_string(), tol, dtmax, len, dynamic, t0 });
+                                    v.push(StepPt { solver, rhs: rhs.to_string(), tol, dtmax, len, dynamic, t0, dtmin_frac: None });
                                 }
+                            }
+                        }
+                    }
+                }
+            }
+            // large minimum step x a sweep of interval lengths across one maximum step: what is left before the end
+            // falls below, at and above the minimum step
+            if solver != Solver::Euler {
+                for rhs in ["generic2", "cgeneric2"] {
+                    for &tol in &[1e-2, 1e-4] {
+                        for &frac in &[0.5, 0.25] {
+                            for j in 0..t.pick(8, 16) {
+                                let dtmax = 0.2;
+                                let len = dtmax * (5.0 + j as f64 / t.pick(8.0, 16.0) + 1e-3);
+                                v.push(StepPt { solver, rhs: rhs.to_string(), tol, dtmax, len, dynamic: false, t0: None, dtmin_frac: Some(frac) });
                             }
                         }
                     }
